@@ -16,7 +16,7 @@ def ulp_shift(x, k):
 def threshold(rng, cls=None):
     """A threshold in (0,1] from one of several classes; returns (class name, float)."""
     classes = ['k/100', 'k/1000', 'n/d', 'n/d+-ulp', 'sqrt(n/d)', 'uniform', 'one', 'dice-like',
-               'jac-like']
+               'jac-like', 'n/d+-1e-5', 'cos-like+-1e-5']
     c = cls or rng.choice(classes)
     if c == 'k/100':
         t = rng.randint(1, 100) / 100
@@ -41,6 +41,15 @@ def threshold(rng, cls=None):
         a, b = rng.randint(1, 20), rng.randint(1, 20)
         o = rng.randint(1, min(a, b))
         t = o / (a + b - o)
+    elif c == 'n/d+-1e-5':
+        # 5 significant decimals next to a ratio: the size bounds round at 4 decimals, so the window
+        # and the required overlap can disagree here
+        d = rng.randint(1, 30)
+        t = round(rng.randint(1, d) / d, 5) + rng.choice([-2e-5, -1e-5, 1e-5, 2e-5])
+    elif c == 'cos-like+-1e-5':
+        a, b = rng.randint(1, 25), rng.randint(1, 45)
+        o = rng.randint(1, min(a, b))
+        t = round(o / math.sqrt(a * b), rng.choice([3, 4, 5])) + rng.choice([-1e-5, 0.0, 1e-5])
     else:
         t = 1.0
     if not (0.0 < t <= 1.0):
